@@ -25,6 +25,8 @@ fn payloads(depth: usize, n: usize) -> Vec<(&'static str, Vec<GTok>, bool)> {
         ("block-empty", blk(vec![]), false),
         ("block-params", blk(vec![tok("x", Role::Param, d + 1), tok("0x10", Role::Param, d + 1), tok("\"/end\"", Role::Param, d + 1)]), false),
         ("block-nested", blk(vec![tok("/begin", Role::Begin, d + 1), tok("INNER", Role::Tag, d + 1), tok("1", Role::Param, d + 2), tok("/begin", Role::Begin, d + 2), tok("INNER2", Role::Tag, d + 2), tok("/end", Role::End, d + 2), tok("INNER2", Role::Tag, d + 2), tok("/end", Role::End, d + 1), tok("INNER", Role::Tag, d + 1), tok("KW", Role::Tag, d + 1), tok("3", Role::Param, d + 1)]), false),
+        // a vendor block that contains a block of the same name (recursive structures): only the outer /end closes it
+        ("block-nested-same-tag", blk(vec![tok("1", Role::Param, d + 1), tok("/begin", Role::Begin, d + 1), tok(&format!("UNKNOWN_BLK{n}"), Role::Tag, d + 1), tok("2", Role::Param, d + 2), tok("/end", Role::End, d + 1), tok(&format!("UNKNOWN_BLK{n}"), Role::Tag, d + 1), tok("5", Role::Param, d + 1)]), false),
         ("block-comments", blk(vec![tok("/* inner */", Role::Comment, d + 1), tok("a", Role::Param, d + 1), tok("// line", Role::Comment, d + 1)]), false),
         ("keyword-nested-block", vec![tok(&format!("UNKNOWN_KW{n}"), Role::Tag, d), tok("7", Role::Param, d), tok("/begin", Role::Begin, d), tok("SUBX", Role::Tag, d), tok("/end", Role::End, d), tok("SUBX", Role::Tag, d)], true),
     ]
